@@ -158,6 +158,19 @@ theorem k_checkAndNudge_model (fuel : Nat) (w h : Int) (ps : List GridSampler.Pt
   | ok ps' => rw [hm] at hk; exact hk
   | error e => rw [hm] at hk; exact ⟨GridSampler.checkAndNudge_error hm, hk⟩
 
+when_kernel Gzx.Gen.K19.checkAndNudge in
+/-- the same on EVERY slice of rationals (odd lengths and the empty slice as coded): regenerated source =
+    `GridSampler.checkAndNudgePoints`, the model function the differential suite `nudge` drives -/
+theorem k_checkAndNudgePoints_model (fuel : Nat) (w h : Int) (pts : List Rat) (hf : pts.length < fuel) :
+    match GridSampler.checkAndNudgePoints w h pts with
+    | .ok r => Gen.K19.checkAndNudge ratOps fuel w h pts = .ok (false, r)
+    | .error _ => ∃ out, Gen.K19.checkAndNudge ratOps fuel w h pts = .ok (true, out) := by
+  have hk := k_checkAndNudge_eq ratOps fuel w h pts hf
+  rw [nudgeSpec_rat] at hk
+  cases hm : GridSampler.checkAndNudgePoints w h pts with
+  | ok r => rw [hm] at hk; exact hk
+  | error e => rw [hm] at hk; exact hk
+
 example : GridSampler.checkAndNudge 10 10 [(5, 10), (5, 5)] = .ok [(5, 9), (5, 5)] := by decide
 
 when_kernel Gzx.Gen.K19.checkAndNudge in
